@@ -471,9 +471,42 @@ pub const INVALID: &[&[u8]] = &[
     b"{\"version\":3,\"sources\":[],\"names\":[],\"mappings\":\"AAAA,\\u0000\"}",
 ];
 
+/// Which decoded kind a fixture/inline document has (cheap textual test; only steers the mix).
+fn looks_like(d: &Doc) -> DocKind {
+    let b = &d.bytes[..];
+    let has = |pat: &[u8]| b.windows(pat.len()).any(|w| w == pat);
+    if has(b"\"sections\"") {
+        DocKind::SynthIndex
+    } else if has(b"\"x_facebook_sources\"") {
+        DocKind::SynthHermes
+    } else {
+        DocKind::SynthRegular
+    }
+}
+
+/// Draw a document that (before damage) decodes to the wanted kind of map.
+pub fn draw_kind(rng: &mut Rng, fx: &Fixtures, want: DocKind, big_fixture_pct: u64) -> Doc {
+    if rng.chance(1, 2) {
+        for _ in 0..40 {
+            let d = rng.pick(&fx.maps[..]);
+            if d.bytes.len() > 10_000 && !rng.chance(big_fixture_pct, 100) {
+                continue;
+            }
+            if looks_like(d) == want {
+                return d.clone();
+            }
+        }
+    }
+    synth(rng, want)
+}
+
 /// Draw one document for C12/C05 workloads.
 pub fn draw(rng: &mut Rng, fx: &Fixtures, big_fixture_pct: u64) -> Doc {
-    match rng.weighted(&[30, 26, 12, 12, 8, 8, 4]) {
+    draw_weighted(rng, fx, big_fixture_pct, &[30, 26, 12, 12, 8, 8, 4])
+}
+
+pub fn draw_weighted(rng: &mut Rng, fx: &Fixtures, big_fixture_pct: u64, weights: &[u32; 7]) -> Doc {
+    match rng.weighted(weights) {
         0 => {
             // fixtures; the two large ones are sampled rarely
             loop {
